@@ -993,7 +993,43 @@ def rule_bound_kept(run):
     c03.rule_bound_kept(run)   # `if f():` with a constant result still executes f (its run-time assignments are emitted)
 
 
-RULES = [rule_tables, rule_dispatch, rule_compare_chain, rule_boolop, rule_fail_closed, rule_bind, rule_env, rule_builtins, rule_siblings, rule_unpack, rule_anyall, rule_purge, rule_defaults, rule_comprehension, rule_unreachable, rule_getattr, rule_hasattr, rule_returns_always, rule_default_names, rule_loop_scope, rule_bound_kept]
+def rule_keyword_once(run):
+    """CPython raises TypeError when a call receives one keyword twice (`f(a=1, **{"a": 2})`, `f(**m, a=1)`).  The tracer
+    collects the keywords of a call into one dict; a store into that dict that is not guarded by a membership test lets
+    the later value overwrite the earlier one silently."""
+    run.begin("C10.kwonce", "every store into the keyword dict of a traced call is preceded, in the same block, by a fail-closed test that the key is not there yet", floor=2)
+    pm = run.idx.mod(PREP)
+    n = 0
+    for q, f in pm.functions.items():
+        # the keyword dict: a dict-typed local that is filled inside a loop over `<call>.keywords`
+        for loop in walk_local(f.node):
+            if not (isinstance(loop, ast.For) and (dotted(loop.iter) or "").endswith(".keywords")):
+                continue
+            for st in ast.walk(loop):
+                if not (isinstance(st, ast.Assign) and len(st.targets) == 1 and isinstance(st.targets[0], ast.Subscript) and isinstance(st.targets[0].value, ast.Name)):
+                    continue
+                d, key = st.targets[0].value.id, src(st.targets[0].slice)
+                block = getattr(pm.parents.of(st), pm.parents.field_of(st))
+                before = block[:block.index(st)]
+                guarded = False
+                for b in before:
+                    if isinstance(b, ast.Assert):
+                        for c in ast.walk(b.test):
+                            if isinstance(c, ast.Compare) and len(c.ops) == 1 and isinstance(c.ops[0], ast.NotIn) and src(c.left) == key and dotted(c.comparators[0]) == d:
+                                guarded = True
+                    elif isinstance(b, ast.If) and ends_in_raise(b.body):
+                        for c in ast.walk(b.test):
+                            if isinstance(c, ast.Compare) and len(c.ops) == 1 and isinstance(c.ops[0], ast.In) and src(c.left) == key and dotted(c.comparators[0]) == d:
+                                guarded = True
+                n += 1
+                run.ob(guarded, q, file=pm.rel, line=st.lineno, detail=f"store[{key}]", expected=f"assert {key} not in {d}  (TypeError in CPython: multiple values for keyword argument)",
+                       found="guarded" if guarded else f"`{src(st)[:60]}` overwrites an earlier keyword silently")
+    if n == 0:
+        raise AnalysisError("anchor vanished: keyword collection of traced calls (loop over <call>.keywords)")
+    run.end()
+
+
+RULES = [rule_tables, rule_dispatch, rule_compare_chain, rule_boolop, rule_fail_closed, rule_bind, rule_env, rule_builtins, rule_siblings, rule_unpack, rule_anyall, rule_purge, rule_defaults, rule_comprehension, rule_unreachable, rule_getattr, rule_hasattr, rule_returns_always, rule_default_names, rule_loop_scope, rule_bound_kept, rule_keyword_once]
 LEVEL = "other"
 EXPLANATION = (
     "The tracer re-implements CPython's evaluation rules by hand; decided here, for all programs, are the parts of "
